@@ -804,6 +804,14 @@ def explore_c10(rng, tier, res, deep=False):
             cases.append((f"$[?vvl({a}, {b})]", d))
             cases.append((f"$[?vvl({b}, {a}) || vvl({a}, {a})]", d))
             cases.append((f"$[?lnv(vvl({a}, {b}), @.*) == 7]", d))
+    # a PARENTHESISED (or negated) logical expression in a LogicalType parameter that is FOLLOWED by parameters of other
+    # types, and parenthesised arguments in the last position: which parameter an argument is checked against and
+    # converted for is its own position
+    for d in docs[:6]:
+        for first in ("(@.a)", "(@.a && @.b)", "!(@.a)", "(@.a == 1)", "((@[0]))", "(lf(@.a))"):
+            cases.append((f"$[?lnv({first}, @.*) == 7]", d))
+            cases.append((f"$[?lnv({first}, @[?@]) == 7 || lf({first})]", d))
+            cases.append((f"$[?lf({first}) && vvl(1, 2)]", d))
     tests = ["lf(@)", "lf(@.a)", "lf(@.*)", "lf(@==1)", "lf(!@.a)", "lf((@.a || @[0]))", "lf(lf(@))", "lf(nf(@.*))",
              "nf(@)", "nf(@.*)", "nf(nf(@..*))", "vvl(@, 1)", "vvl(@.a, $[0])", "zl()", "lnv(@.a, @.*) == 7",
              "lnv(@ == 1, @) == 7", "lnv(lf(@), nf(@)) == 7", "!lf(@)", "!nf(@.a)", "lf(@) && nf(@.*)",
